@@ -422,7 +422,7 @@ def selftest(ctx):
     bif, xml, net, uai = base[0], base[1], base[2], base[6]
     ch = next(i for i, p in enumerate(bif["doc"]["probs"]) if p["parents"])
     mutant(bif, "write.cells", lambda t: swap(t["doc"]["probs"][ch]["rows"][0]["cells"], 0, 1))
-    mutant(bif, "write.row_labels", lambda t: swap(t["doc"]["probs"][ch]["rows"][0]["label"], 0, 1))
+    mutant(bif, "write.row_labels", lambda t: swap(t["doc"]["probs"][ch]["rows"][-1]["label"], 0, 1))
     mutant(bif, "write.parents", lambda t: swap(t["doc"]["probs"][ch]["parents"], 0, 1))
     mutant(bif, "write.states", lambda t: swap(t["doc"]["vars"][0]["states"], 0, 1))
     mutant(bif, "write.var_order", lambda t: swap(t["doc"]["vars"], 0, 1))
@@ -434,7 +434,7 @@ def selftest(ctx):
     fam = next(i for i, f in enumerate(xml["rfams"]) if len(f["scope"]) == 3)
     mutant(xml, "read.value", lambda t: swap(t["rfams"][fam]["cells"], 0, 7))
     mutant(xml, "roundtrip.value", lambda t: swap(t["rfams"][fam]["cells"], 1, 2))
-    mutant(xml, "roundtrip.value", lambda t: swap(t["rfams"][fam]["scope"], 1, 2))          # parents swapped, table not re-laid-out
+    mutant(xml, "roundtrip.", lambda t: (swap(t["rfams"][fam]["scope"], 1, 2), swap(t["rfams"][fam]["st"], 1, 2)))   # parents swapped, table not re-laid-out
     mutant(xml, "roundtrip.edges", lambda t: t["redges"].pop())
     mutant(xml, "roundtrip.nodes", lambda t: t["rnodes"].append("?ghost"))
     mutant(xml, "roundtrip.states", lambda t: t["rfams"][fam]["st"][0].__setitem__(0, "?x"))
